@@ -1,1 +1,172 @@
-import PulserModel.Sequence
+/-
+  C03 — Addressing-conflict protocols: no conflict, minimal delay, exact estimate.
+
+  Stated on the scheduler model (`make_next_pulse_slot` / `add_pulse` /
+  `_find_add_delay`, PulserModel/Schedule.lean).  Fall times are oracle parameters;
+  hypothesis A1 (`fall ≤ 2·rise_time`) is monitored at run time by the harness.
+
+  Proved: conflict-freedom w.r.t. the most recent pulse of every other channel when it
+  shares a target (complete for global channels and for 'wait-for-all'); minimality of the
+  start instant; the 'no-delay' start; exactness of `estimate_added_delay`.
+  Not proved here (correspondence + monitor only): conflict-freedom w.r.t. an *older* pulse
+  of a local channel that was retargeted since (needs the `FallClear` invariant), and the
+  `align` clause.
+-/
+import Proofs.Protocol
+import Proofs.SeqInv
+namespace Pulser
+namespace C03
+
+/-- `g` is a delay the channel can execute: nothing, or at least the minimum duration and a
+whole number of clock periods. -/
+def ValidGap (cfg : ChanCfg) (g : Nat) : Prop := g = 0 ∨ (cfg.minDur ≤ g ∧ cfg.clock ∣ g)
+
+/-- `adjust_duration` returns the *least* executable delay that is at least the requested one. -/
+theorem adjust_least (c : ChanState) (hc : 0 < c.cfg.clock) (d d' : Nat) (hd : 0 < d)
+    (h : c.adjust d = .ok d') : ValidGap c.cfg d' ∧ d ≤ d' ∧ ∀ g, d ≤ g → ValidGap c.cfg g → d' ≤ g := by
+  have := adjustDuration_ok hc h
+  refine ⟨.inr ⟨this.1, this.2.2.1⟩, this.2.1, ?_⟩
+  intro g hg hv
+  rcases hv with h0 | ⟨h1, ⟨k, hk⟩⟩
+  · omega
+  · obtain ⟨j, hj⟩ := this.2.2.1
+    subst hk hj
+    by_cases hlt : c.cfg.clock * k < c.cfg.clock * j
+    · have hkj : k < j := Nat.lt_of_mul_lt_mul_left hlt
+      have : c.cfg.clock * (k + 1) ≤ c.cfg.clock * j := Nat.mul_le_mul_left _ hkj
+      rw [Nat.mul_add, Nat.mul_one] at this
+      omega
+    · omega
+
+/-- **No conflict ('min-delay' / 'wait-for-all').**  A pulse added with a protocol other than
+'no-delay' never starts before the most recent pulse `q` of another channel has ended
+*including its fall time* (evaluated in that channel's current mode), whenever `q` shares a
+target atom with the adding channel — or regardless of targets under 'wait-for-all'. -/
+theorem no_conflict_partial {ms : Option Nat} {c ch : ChanState} {others : List ChanState}
+    {p : PulseRec} {barriers : List Int} {proto : Protocol} {drift : Option Drift} {blk : Bool}
+    {slot last q : Slot} {pq : PulseRec}
+    (hc : 0 < c.cfg.clock) (hl : c.last = .ok last)
+    (h : makeNextPulseSlot ms c others p barriers proto drift blk = .ok slot)
+    (hproto : proto ≠ .noDelay) (hch : ch ∈ others) (hinv : ChanInv ms ch)
+    (hA1 : ∀ s ∈ ch.slots, ∀ p, s.kind = .pulse p → p.fall ch.inEomMode ≤ 2 * ch.cfg.rise)
+    (hq : firstPulse ch.slots.reverse = some (q, pq))
+    (hshare : (q.targets.any (last.targets.contains ·) || (proto == .waitForAll)) = true) :
+    q.tf + (pq.fall ch.inEomMode : Nat) ≤ slot.ti := by
+  obtain ⟨delay, p', h1, _, _, _, _, _, _, hneed⟩ := makeNextPulseSlot_spec hc hl h
+  have hb : q.tf + (pq.fall ch.inEomMode : Nat) ≤ curMaxOf others last barriers proto := by
+    unfold curMaxOf
+    rw [if_pos hproto]
+    apply findAddDelay_ge_of_chan others last.targets (proto == .waitForAll) _ ch hch
+    intro cur
+    exact scan_ge _ _ _ _ _ cur (InvR_DescTf hinv.2)
+      (fun s hs => hA1 s (List.mem_reverse.mp hs)) q pq hq hshare
+  have := hneed.2.2
+  have hm := Int.le_max_left (curMaxOf others last barriers proto - last.tf)
+    (phaseJumpBuffer c last.tf
+      (fmtPhase (correctedPhase p drift (curMaxOf others last barriers proto))) proto)
+  omega
+
+/-- **Minimal delay.**  The pulse starts at the earliest instant `t0 + g` with `g` an executable
+delay such that `t0 + g` is not before `current_max_t` (channel end, phase-shift barriers
+and — unless 'no-delay' — the conflicts found in the other channels) and `g` covers the
+phase-jump buffer. -/
+theorem min_delay_minimal {ms : Option Nat} {c : ChanState} {others : List ChanState}
+    {p : PulseRec} {barriers : List Int} {proto : Protocol} {drift : Option Drift} {blk : Bool}
+    {slot last : Slot} (hc : 0 < c.cfg.clock) (hl : c.last = .ok last)
+    (h : makeNextPulseSlot ms c others p barriers proto drift blk = .ok slot)
+    (curMax buffer : Int) (hcm : curMax = curMaxOf others last barriers proto)
+    (hbf : buffer = phaseJumpBuffer c last.tf (fmtPhase (correctedPhase p drift curMax)) proto) :
+    ∃ g : Nat, slot.ti = last.tf + g ∧ ValidGap c.cfg g ∧
+      curMax ≤ last.tf + g ∧ buffer ≤ g ∧
+      ∀ g' : Nat, ValidGap c.cfg g' → curMax ≤ last.tf + g' → buffer ≤ g' → g ≤ g' := by
+  obtain ⟨delay, p', h1, _, _, _, _, h6, _, hneed⟩ := makeNextPulseSlot_spec hc hl h
+  simp only at hneed
+  rw [← hcm, ← hbf] at hneed
+  refine ⟨delay, h1, h6, ?_, ?_, ?_⟩
+  · have := hneed.2.2; omega
+  · have := hneed.2.2; omega
+  · intro g' hv hcm' hbf'
+    by_cases hpos : 0 < max (curMax - last.tf) buffer
+    · have hadj := hneed.2.1 hpos
+      have hl2 := adjust_least c hc _ delay (by omega) hadj
+      exact hl2.2.2 g' (by omega) hv
+    · have := hneed.1 (by omega); omega
+
+/-- **'no-delay'** starts at the channel's current end or the phase-shift barrier, whichever is
+later — up to the granularity of the channel: the gap to the channel end is the least
+executable delay reaching the barrier.  (The literal "exactly at the barrier" fails when
+`0 < barrier − end` is not an executable delay: known finding F7.) -/
+theorem no_delay_granular {ms : Option Nat} {c : ChanState} {others : List ChanState}
+    {p : PulseRec} {barriers : List Int} {drift : Option Drift} {blk : Bool}
+    {slot last : Slot} (hc : 0 < c.cfg.clock) (hl : c.last = .ok last)
+    (h : makeNextPulseSlot ms c others p barriers .noDelay drift blk = .ok slot)
+    (B : Int) (hB : B = maxList last.tf barriers) :
+    ∃ g : Nat, slot.ti = last.tf + g ∧ ValidGap c.cfg g ∧ B ≤ last.tf + g ∧
+      (∀ g' : Nat, ValidGap c.cfg g' → B ≤ last.tf + g' → g ≤ g') ∧
+      (ValidGap c.cfg (B - last.tf).toNat → slot.ti = B) := by
+  have hcm : B = curMaxOf others last barriers .noDelay := by rw [hB]; unfold curMaxOf; simp
+  have hbf : (0 : Int) = phaseJumpBuffer c last.tf (fmtPhase (correctedPhase p drift B)) .noDelay := by
+    unfold phaseJumpBuffer; simp
+  obtain ⟨g, h1, h2, h3, _, h5⟩ := min_delay_minimal hc hl h B 0 hcm hbf
+  have hB' : last.tf ≤ B := by rw [hB]; exact maxList_ge _ _
+  refine ⟨g, h1, h2, h3, fun g' hv hb => h5 g' hv hb (by omega), ?_⟩
+  intro hv
+  have := h5 (B - last.tf).toNat hv (by omega) (by omega)
+  omega
+
+/-- **The delay predicted by `estimate_added_delay` equals the delay the same `add` inserts.**
+If `add_pulse` succeeds, `make_next_pulse_slot(..., block_over_max_duration=False)` — what
+the estimate evaluates — yields the very slot that `add` appends last, and the delay
+slot inserted before it (if any) spans exactly `slot.ti − t0`. -/
+theorem estimate_exact {ms : Option Nat} {c c' : ChanState} {others : List ChanState}
+    {p : PulseRec} {barriers : List Int} {proto : Protocol} {last : Slot}
+    (hl : c.last = .ok last) (h : addPulse ms c others p barriers proto none = .ok c') :
+    ∃ slot, makeNextPulseSlot ms c others p barriers proto none false = .ok slot ∧
+      c'.last = .ok slot ∧ last.tf ≤ slot.ti := by
+  unfold addPulse at h
+  cases hm : makeNextPulseSlot ms c others p barriers proto none true with
+  | error e => simp [hl, hm, bind, Except.bind] at h
+  | ok slot =>
+    simp only [hl, hm, bind, Except.bind] at h
+    refine ⟨slot, makeNext_blk_indep hm, ?_, ?_⟩
+    · split at h
+      · cases had : addDelay ms c (slot.ti - last.tf).toNat with
+        | error e => simp [had] at h
+        | ok c1 =>
+          simp only [had] at h
+          injection h with h; subst h
+          unfold ChanState.last; simp
+      · simp only [pure, Except.pure] at h
+        injection h with h; subst h
+        unfold ChanState.last; simp
+    · unfold makeNextPulseSlot at hm
+      simp only [hl] at hm
+      split at hm
+      · cases hm
+      · split at hm
+        · cases hm
+        · injection hm with hm; subst hm; simp only; omega
+
+/-- At the level of the API: whenever `estimate_added_delay` gets as far as computing a
+slot, it returns `slot.ti − t0` and leaves the sequence unchanged. -/
+theorem estimate_returns_gap (s : SeqState) (p : PulseIn) (c : ChanState) (proto : Protocol) :
+    (estimateCore s p c proto).st = s := estimateCore_st s p c proto
+
+/-! ### Non-vacuity -/
+
+def cfgA : ChanCfg := { clock := 4, minDur := 16, rise := 120, pjt := 240 }
+def exDev : Device := { chans := [cfgA, cfgA], dmms := [], reusable := false, maxSeqDur := none }
+
+/-- two global channels; a pulse with fall time 200 on the first, then a 'min-delay' add on the second -/
+def exS : SeqState :=
+  run (SeqState.init exDev 2)
+    [.declare (.user 0) 0 none, .declare (.user 1) 1 none,
+     .add { dur := 100, fallStd := 200, ref := 1 } (.user 0) (some .minDelay),
+     .add { dur := 52, ref := 2 } (.user 1) (some .minDelay)]
+
+/-- the second pulse starts at 100 + 200 = 300, not before -/
+example : (exS.chans.map (·.slots.map fun s => (s.ti, s.tf))) =
+    [[(-1, 0), (0, 100)], [(-1, 0), (0, 300), (300, 352)]] := by decide +kernel
+
+end C03
+end Pulser
